@@ -133,3 +133,64 @@ func VerifC20Header() {
 	verifAssert("C20.h.clone-unchanged", err == nil && verifEqBytes(cm, ref))
 	verifCover("C20.header.end")
 }
+
+// Slices with spare capacity: a clone that kept the original's backing array
+// (an empty but non-nil CSRC or Extensions slice with room to grow, say) shows
+// no difference until both sides append. Append on one side, then on the
+// other, and each must still report its own value.
+func VerifC20SpareCapacity() {
+	var p Packet
+	cc := verifCase("cc", 0, 2)
+	verifFixedFields(&p.Header, 0)
+	p.CSRC = make([]uint32, cc, cc+2)
+	for i := range p.CSRC {
+		p.CSRC[i] = verifU32("csrc")
+	}
+	kind := verifCase("profile", 1, 2)
+	ne := verifCase("next", 0, 1)
+	p.Extensions = make([]Extension, 0, 3)
+	m := verifSetExtensions(&p.Header, kind, ne, false)
+	for _, id := range m.ids {
+		verifAssume(id != 13)
+		verifAssume(id != 14)
+	}
+	pl := verifCase("payloadLen", 0, 2)
+	p.Payload = make([]byte, pl, pl+4)
+	verifHavoc("payload", p.Payload)
+	ref, err := p.Marshal()
+	verifAssert("C20.s.ref-noerr", err == nil)
+	byHeader := verifCase("headerClone", 0, 1) == 1
+	var c *Packet
+	if byHeader {
+		c = &Packet{Header: p.Header.Clone(), Payload: append([]byte{}, p.Payload...)}
+	} else {
+		c = p.Clone()
+	}
+	verifHeaderEqual("C20.s.clone", &c.Header, &p.Header, &m)
+	a, b := verifU32("append.clone"), verifU32("append.orig")
+	c.CSRC = append(c.CSRC, a)
+	p.CSRC = append(p.CSRC, b)
+	verifAssert("C20.s.csrc-clone", len(c.CSRC) == cc+1 && c.CSRC[cc] == a)
+	verifAssert("C20.s.csrc-orig", len(p.CSRC) == cc+1 && p.CSRC[cc] == b)
+	for i := 0; i < cc; i++ {
+		verifAssert("C20.s.csrc-kept", c.CSRC[i] == p.CSRC[i])
+	}
+	// a fresh extension on each side, different ids and values
+	idc, ido := uint8(13), uint8(14)
+	va, vb := verifBytes("ext.clone", 2), verifBytes("ext.orig", 2)
+	verifAssert("C20.s.set-clone", c.SetExtension(idc, va) == nil)
+	verifAssert("C20.s.set-orig", p.SetExtension(ido, vb) == nil)
+	verifAssert("C20.s.ext-clone", verifEqBytes(c.GetExtension(idc), va) && c.GetExtension(ido) == nil)
+	verifAssert("C20.s.ext-orig", verifEqBytes(p.GetExtension(ido), vb) && p.GetExtension(idc) == nil)
+	for i := range m.ids {
+		verifAssert("C20.s.ext-kept-clone", verifEqBytes(c.GetExtension(m.ids[i]), m.vals[i]))
+		verifAssert("C20.s.ext-kept-orig", verifEqBytes(p.GetExtension(m.ids[i]), m.vals[i]))
+	}
+	x, y := verifU8("payload.clone"), verifU8("payload.orig")
+	c.Payload = append(c.Payload, x)
+	p.Payload = append(p.Payload, y)
+	verifAssert("C20.s.payload-clone", c.Payload[pl] == x)
+	verifAssert("C20.s.payload-orig", p.Payload[pl] == y)
+	_ = ref
+	verifCover("C20.spare.end")
+}
